@@ -16,11 +16,28 @@ has one), both prologue variants, every operand value.  Values are
 little-endian bit lists; `toNat` / `toInt` read them as unsigned / two's
 complement numbers.
 
-Builders whose statement FAILS on the current code have a `…_wrong` theorem
-(negation with a concrete witness, kernel-checked by `decide`) and a
-`…_partial` theorem that carries the exact guard.  After the fix commits
-b4e0da3, 1a24bc4, b8285b2 only the signed comparators remain in that state
-(zero extension of the narrower signed operand).
+Builders whose statement FAILS on the current code (/repo 776d360) have a
+`…_wrong` theorem (negation with a concrete witness, kernel-checked by
+`decide`) and a `…_partial` theorem that carries the exact guard or the exact
+semantics of the code.  These are the signed comparators and the signed
+divider on UNEQUAL operand widths: the code zero-extends the narrower operand
+(`cc.ZeroPad`), `C07_intCmp_*`, `C07_idiv_*`, `C07_imod_*`.  The theorems
+`C07_intCmp_signpad`, `C07_idiv_signpad`, `C07_imod_signpad` are CONDITIONAL
+results about the PROPOSED REPAIR (`cc.SignPad` variants of the generators,
+hooks/c07-*-signpad.patch), not about the code: the repair was withdrawn from
+/repo because constants carry no sign (a positive literal in [2^31, 2^32) next
+to a wider signed operand would be read negative).  After the fix commits
+b4e0da3, 1a24bc4, b8285b2, cf9e510 no other builder theorem of this file
+carries a width restriction; negation witnesses of repaired defects are kept
+about explicitly named old definitions (`…_old_…`).
+
+Goldschmidt divider (GMW target of NewUDivider): `C07_goldschmidt_correction`
+proves the correction step exact for every width UNDER THE EXPLICIT HYPOTHESIS
+that the quotient estimate is within ±1 of ⌊a / b⌋.  That bound is not proved;
+it is the VALIDATED HYPOTHESIS `goldschmidt-estimate-within-one` of
+checks/C07.py (all operand pairs of widths 1..9 on every quick run, 1..11 on
+every thorough run, structured pairs at widths up to 64; evaluated on the
+generator `goldEstimate`, which is tied gate for gate to the Go code).
 
 NOT proved here (validated by the oracle and, for the gate lists, by T4 only):
 see the list at the end of this file.
@@ -33,6 +50,7 @@ import MpcVerif.Proofs.BuildersDiv
 import MpcVerif.Proofs.BuildersKara
 import MpcVerif.Proofs.BuildersWallace
 import MpcVerif.Proofs.BuildersHammingG
+import MpcVerif.Proofs.BuildersGold
 
 namespace Mpc
 open Mpc.Bld
@@ -230,7 +248,9 @@ theorem C07_ucmp (k : CmpKind) (pro : Bool) (x y : List Bool) (hw : 0 < x.length
 example : evalBuilder (comparator false .gt) true [true, true, false] [false, true] = [true] := by decide
 
 /- Full statement for the signed comparators (FALSE for unequal widths, see
-   `C07_intCmp_unequal_wrong`): result = rel (toInt x) (toInt y). -/
+   `C07_intCmp_unequal_wrong`): result = rel (toInt x) (toInt y).  Known
+   finding C07-int-comparator-zero-extends (open; reachable:
+   `func main(a int8, b int16) bool { return a < b }`, a = -1, b = 3). -/
 
 /-- `NewInt{Gt,Ge,Lt,Le}Comparator`, every width: the result bit is the signed
 comparison of the operands ZERO-padded to the common width (what the code
@@ -267,6 +287,27 @@ theorem C07_intCmp_unequal_wrong :
     evalBuilder (comparator true .lt) true [true, true] [true, true, false] = [false] ∧
     toInt [true, true] < toInt [true, true, false] := by
   decide
+
+/-- CONDITIONAL RESULT ABOUT THE PROPOSED REPAIR, NOT ABOUT THE CODE.
+`comparatorSignPad` is `NewInt{Gt,Ge,Lt,Le}Comparator` with `cc.SignPad` in
+place of `cc.ZeroPad` (hooks/c07-intcomparator-signpad.patch; judged not safe
+for /repo as long as constants carry no sign: the literal 0xffffffff and the
+folded -1 are the same 32-bit constant wires, so a positive literal in
+[2^31, 2^32) compared with a wider signed operand would be read negative).
+For this variant the result bit is the comparison of the two's complement
+values for ALL operand widths, each operand read at its own width. -/
+theorem C07_intCmp_signpad (k : CmpKind) (pro : Bool) (x y : List Bool) (hx : 0 < x.length) (hy : 0 < y.length) :
+    evalBuilder (comparatorSignPad k) pro x y = [k.relInt (toInt x) (toInt y)] := by
+  refine evalBuilder_spec (R := fun z => z = [k.relInt (toInt x) (toInt y)]) ?_ pro (by omega)
+  intro s inp xw yw hwf hxb hyb hxv hyv
+  have hlx : xw.length = x.length := by rw [← hxv]; simp
+  have hly : yw.length = y.length := by rw [← hyv]; simp
+  refine (icomparatorSignPad_spec hwf k hxb hyb (by omega) (by omega)).mono ?_
+  intro z s' _ ⟨hb, hv⟩
+  exact ⟨hb, by rw [hv, hxv, hyv]⟩
+
+-- the proposed repair on the witness of `C07_intCmp_unequal_wrong`: 2-bit -1 < 3-bit 3
+example : evalBuilder (comparatorSignPad .lt) true [true, true] [true, true, false] = [true] := by decide
 
 /-! ## Equality -/
 
@@ -596,12 +637,12 @@ example : toNat (evalBuilder (fun a b => wallace a b 8) true (ofNat 4 13) (ofNat
 /-! ## Long division (Yao target of NewUDivider / NewIDivider) -/
 
 /-- `NewUDividerLong` (on either target: its subtractor is `NewSubtractor`),
-quotient: for all operand widths, every quotient width `nz ≤ max(|x|,|y|)`
-(wider quotient wires stay unconnected in the Go code) and every non-zero
+quotient: for all operand widths, EVERY quotient width (wires above the
+operand width are the zero wire since the zero-fill fix) and every non-zero
 divisor the result is `(x / y) mod 2^nz`.  Proof: restoring-division invariant
 `a_top = q·b + r, r < b` over the dividend bits (`divLongLoop_spec`). -/
 theorem C07_udiv (gmw pro : Bool) (x y : List Bool) (nz : Nat)
-    (hw : 0 < max x.length y.length) (hnz : nz ≤ max x.length y.length) (hy : toNat y ≠ 0) :
+    (hw : 0 < max x.length y.length) (hy : toNat y ≠ 0) :
     (evalBuilder (fun a b => do let d ← uDividerLong gmw a b nz 0; pure d.1) pro x y).length = nz ∧
     toNat (evalBuilder (fun a b => do let d ← uDividerLong gmw a b nz 0; pure d.1) pro x y) =
       (toNat x / toNat y) % 2 ^ nz := by
@@ -611,14 +652,12 @@ theorem C07_udiv (gmw pro : Bool) (x y : List Bool) (nz : Nat)
   have hly : yw.length = y.length := by rw [← hyv]; simp
   refine (uDividerLong_spec hwf gmw nz 0 hx hy' (by omega) (by rw [hyv]; omega)).map ?_
   intro t s' _ ⟨h1, _, h1l, _, hq, _⟩
-  have hmin : min nz (max xw.length yw.length) = nz := by omega
-  rw [hmin] at h1l hq
   exact ⟨h1, by simpa using h1l, by rw [hq, hxv, hyv]⟩
 
-/-- `NewUDividerLong`, remainder: `(x mod y) mod 2^nz` for `nz ≤ max(|x|,|y|)`,
+/-- `NewUDividerLong`, remainder: `(x mod y) mod 2^nz` for every result width,
 non-zero divisor. -/
 theorem C07_umod (gmw pro : Bool) (x y : List Bool) (nz : Nat)
-    (hw : 0 < max x.length y.length) (hnz : nz ≤ max x.length y.length) (hy : toNat y ≠ 0) :
+    (hw : 0 < max x.length y.length) (hy : toNat y ≠ 0) :
     (evalBuilder (fun a b => do let d ← uDividerLong gmw a b 0 nz; pure d.2) pro x y).length = nz ∧
     toNat (evalBuilder (fun a b => do let d ← uDividerLong gmw a b 0 nz; pure d.2) pro x y) =
       (toNat x % toNat y) % 2 ^ nz := by
@@ -628,88 +667,280 @@ theorem C07_umod (gmw pro : Bool) (x y : List Bool) (nz : Nat)
   have hly : yw.length = y.length := by rw [← hyv]; simp
   refine (uDividerLong_spec hwf gmw 0 nz hx hy' (by omega) (by rw [hyv]; omega)).map ?_
   intro t s' _ ⟨_, h2, _, h2l, _, hr⟩
-  have hmin : min nz (max xw.length yw.length) = nz := by omega
-  rw [hmin] at h2l
   exact ⟨h2, by simpa using h2l, by rw [hr, hxv, hyv]⟩
 
-example : toNat (evalBuilder (fun a b => do let d ← uDividerLong false a b 7 0; pure d.1) true
-    (ofNat 7 127) (ofNat 7 13)) = 9 := by decide +kernel
-example : toNat (evalBuilder (fun a b => do let d ← uDividerLong false a b 0 7; pure d.2) true
-    (ofNat 7 127) (ofNat 7 13)) = 10 := by decide +kernel
+-- 29 / 3 = 9 rem 2 on 5-bit operands (small widths keep the kernel evaluation of this file short)
+example : toNat (evalBuilder (fun a b => do let d ← uDividerLong false a b 5 0; pure d.1) true
+    (ofNat 5 29) (ofNat 5 3)) = 9 := by decide +kernel
+example : toNat (evalBuilder (fun a b => do let d ← uDividerLong false a b 0 5; pure d.2) true
+    (ofNat 5 29) (ofNat 5 3)) = 2 := by decide +kernel
 
-/- Full statement for the signed divider (FALSE for unequal operand widths:
-   the narrower operand is zero extended, oracle findings
-   C07-signed-div-zero-extends; and for a quotient wider than the operands:
-   C07-signed-div-quotient-not-sign-extended). -/
+/- Full statement for the signed divider: quotient `Int.tdiv (toInt x) (toInt y)`
+   (the specification fixed by testsuite/lang/divi.mpcl), remainder
+   `|x| mod |y|` (testsuite/lang/modi.mpcl, not Go's `%`), each operand read at
+   its own width.  FALSE on the code for unequal operand widths (the narrower
+   operand is ZERO extended, `C07_idiv_unequal_wrong`, `C07_imod_unequal_wrong`;
+   known finding C07-signed-div-zero-extends, open; reachable: `int64 a / -3`,
+   the constant -3 is the 32-bit value 4294967293).  The width of the RESULT is
+   no restriction any more since the zero-fill fix cf9e510 of the long divider:
+   the magnitude quotient is delivered at the result width and negated there. -/
 
-/-- `NewIDivider` on the Yao target for EQUAL operand widths, quotient width
-`nz ≤ n`, non-zero divisor: the quotient truncates toward zero
-(`Int.tdiv`), reduced modulo `2^nz` — the specification fixed by
-testsuite/lang/divi.mpcl. -/
+/-- `NewIDivider` on the Yao target as it is, ALL operand widths, EVERY quotient
+width: the truncated quotient of the two's complement values of the operands
+ZERO padded to the common width `m` (what the code does), modulo `2^nz`. -/
+theorem C07_idiv_partial (pro : Bool) (x y : List Bool) (nz : Nat) (hw : 0 < max x.length y.length)
+    (hy : toInt (padTo y (max x.length y.length)) ≠ 0) :
+    (evalBuilder (fun a b => do let d ← iDivider false a b nz 0; pure d.1) pro x y).length = nz ∧
+    (toNat (evalBuilder (fun a b => do let d ← iDivider false a b nz 0; pure d.1) pro x y) : Int) =
+      (Int.tdiv (toInt (padTo x (max x.length y.length))) (toInt (padTo y (max x.length y.length)))) %
+        ((2 ^ nz : Nat) : Int) := by
+  have hsx : padTo x (max x.length y.length) ≠ [] := by
+    intro h; have := congrArg List.length h; simp only [padTo_length, List.length_nil] at this; omega
+  have hsy : padTo y (max x.length y.length) ≠ [] := by
+    intro h; have := congrArg List.length h; simp only [padTo_length, List.length_nil] at this; omega
+  refine evalBuilder_spec (R := fun z => z.length = nz ∧
+    (toNat z : Int) = (Int.tdiv (toInt (padTo x (max x.length y.length)))
+      (toInt (padTo y (max x.length y.length)))) % ((2 ^ nz : Nat) : Int)) ?_ pro (by omega)
+  intro s inp xw yw hwf hxb hyb hxv hyv
+  have hlx : xw.length = x.length := by rw [← hxv]; simp
+  have hly : yw.length = y.length := by rw [← hyv]; simp
+  have hB : 0 < absN (padTo (busVal s inp yw) (max xw.length yw.length)) := by
+    rw [hyv, hlx, hly, ← (toInt_sign_abs _ hsy).2]; exact Int.natAbs_pos.mpr hy
+  refine (iDivider_spec hwf nz 0 hxb hyb (by omega) hB).map ?_
+  intro t s' _ ⟨h1, _, h1l, _, hq, _⟩
+  rw [hxv, hyv, hlx, hly] at hq
+  refine ⟨h1, by simpa using h1l, ?_⟩
+  rw [hq, signed_quotient _ _ hsx hsy nz]
+
+/-- `NewIDivider` on the Yao target is exact for EQUAL operand widths and EVERY
+quotient width (also wider than the operands, since cf9e510), non-zero divisor:
+the quotient truncates toward zero (`Int.tdiv`), reduced modulo `2^nz`. -/
 theorem C07_idiv_equal_width (pro : Bool) (x y : List Bool) (nz : Nat) (hl : x.length = y.length)
-    (hw : 0 < x.length) (hnz : nz ≤ x.length) (hy : toInt y ≠ 0) :
+    (hw : 0 < x.length) (hy : toInt y ≠ 0) :
     (evalBuilder (fun a b => do let d ← iDivider false a b nz 0; pure d.1) pro x y).length = nz ∧
     (toNat (evalBuilder (fun a b => do let d ← iDivider false a b nz 0; pure d.1) pro x y) : Int) =
       (Int.tdiv (toInt x) (toInt y)) % ((2 ^ nz : Nat) : Int) := by
-  have hxne : x ≠ [] := by intro h; rw [h] at hw; simp at hw
-  have hyne : y ≠ [] := by intro h; rw [h] at hl; simp only [List.length_nil] at hl; omega
+  have hx' : padTo x (max x.length y.length) = x := by simp [padTo, hl]
+  have hy' : padTo y (max x.length y.length) = y := by simp [padTo, hl]
+  have := C07_idiv_partial pro x y nz (by omega) (by rw [hy']; exact hy)
+  rw [hx', hy'] at this
+  exact this
+
+/-- Negation witness for unequal operand widths (the shape of `int64 a / -3`):
+`x = 5` (4 bits), `y = -2` (3 bits): the truncated quotient is `-2` (14 at 4
+bits) but `NewIDivider` answers 0, because the divisor is read as 6. -/
+theorem C07_idiv_unequal_wrong :
+    toNat (evalBuilder (fun a b => do let d ← iDivider false a b 4 0; pure d.1) true (ofNat 4 5) (ofNat 3 6)) = 0 ∧
+    Int.tdiv (toInt (ofNat 4 5)) (toInt (ofNat 3 6)) % 16 = 14 := by
+  decide +kernel
+
+/-- `NewIDivider` on the Yao target as it is, remainder, all operand widths,
+every result width: `(|x'| mod |y'|) mod 2^nz` for the ZERO padded operands
+`x'`, `y'`. -/
+theorem C07_imod_partial (pro : Bool) (x y : List Bool) (nz : Nat) (hw : 0 < max x.length y.length)
+    (hy : toInt (padTo y (max x.length y.length)) ≠ 0) :
+    (evalBuilder (fun a b => do let d ← iDivider false a b 0 nz; pure d.2) pro x y).length = nz ∧
+    toNat (evalBuilder (fun a b => do let d ← iDivider false a b 0 nz; pure d.2) pro x y) =
+      ((toInt (padTo x (max x.length y.length))).natAbs %
+        (toInt (padTo y (max x.length y.length))).natAbs) % 2 ^ nz := by
+  have hsx : padTo x (max x.length y.length) ≠ [] := by
+    intro h; have := congrArg List.length h; simp only [padTo_length, List.length_nil] at this; omega
+  have hsy : padTo y (max x.length y.length) ≠ [] := by
+    intro h; have := congrArg List.length h; simp only [padTo_length, List.length_nil] at this; omega
   refine evalBuilder_spec (R := fun z => z.length = nz ∧
-    (toNat z : Int) = (Int.tdiv (toInt x) (toInt y)) % ((2 ^ nz : Nat) : Int)) ?_ pro (by omega)
-  intro s inp xw yw hwf hx hy' hxv hyv
+    toNat z = ((toInt (padTo x (max x.length y.length))).natAbs %
+      (toInt (padTo y (max x.length y.length))).natAbs) % 2 ^ nz) ?_ pro (by omega)
+  intro s inp xw yw hwf hxb hyb hxv hyv
   have hlx : xw.length = x.length := by rw [← hxv]; simp
   have hly : yw.length = y.length := by rw [← hyv]; simp
-  have hmx : max xw.length yw.length = x.length := by omega
-  have hpx : padTo (busVal s inp xw) (max xw.length yw.length) = x := by rw [hxv, hmx]; simp [padTo]
-  have hpy : padTo (busVal s inp yw) (max xw.length yw.length) = y := by rw [hyv, hmx]; simp [padTo, hl]
   have hB : 0 < absN (padTo (busVal s inp yw) (max xw.length yw.length)) := by
-    rw [hpy, ← (toInt_sign_abs y hyne).2]; exact Int.natAbs_pos.mpr hy
-  refine (iDivider_spec hwf false nz 0 hx hy' (by omega) (by omega) hB).map ?_
-  intro t s' _ ⟨h1, _, h1l, _, hq, _⟩
-  rw [hpx, hpy] at hq
-  exact ⟨h1, by simpa using h1l, by rw [hq]; exact signed_quotient x y hxne hyne nz⟩
+    rw [hyv, hlx, hly, ← (toInt_sign_abs _ hsy).2]; exact Int.natAbs_pos.mpr hy
+  refine (iDivider_spec hwf 0 nz hxb hyb (by omega) hB).map ?_
+  intro t s' _ ⟨_, h2, _, h2l, _, hr⟩
+  rw [hxv, hyv, hlx, hly] at hr
+  refine ⟨h2, by simpa using h2l, ?_⟩
+  rw [hr, ← (toInt_sign_abs _ hsx).2, ← (toInt_sign_abs _ hsy).2]
 
-/-- `NewIDivider` on the Yao target, remainder, equal operand widths: `|x| mod |y|`
-(the specification fixed by testsuite/lang/modi.mpcl, not Go's `%`). -/
+/-- `NewIDivider` on the Yao target, remainder, EQUAL operand widths, every
+result width: `(|x| mod |y|) mod 2^nz`. -/
 theorem C07_imod_equal_width (pro : Bool) (x y : List Bool) (nz : Nat) (hl : x.length = y.length)
-    (hw : 0 < x.length) (hnz : nz ≤ x.length) (hy : toInt y ≠ 0) :
+    (hw : 0 < x.length) (hy : toInt y ≠ 0) :
     (evalBuilder (fun a b => do let d ← iDivider false a b 0 nz; pure d.2) pro x y).length = nz ∧
     toNat (evalBuilder (fun a b => do let d ← iDivider false a b 0 nz; pure d.2) pro x y) =
       ((toInt x).natAbs % (toInt y).natAbs) % 2 ^ nz := by
-  have hxne : x ≠ [] := by intro h; rw [h] at hw; simp at hw
-  have hyne : y ≠ [] := by intro h; rw [h] at hl; simp only [List.length_nil] at hl; omega
+  have hx' : padTo x (max x.length y.length) = x := by simp [padTo, hl]
+  have hy' : padTo y (max x.length y.length) = y := by simp [padTo, hl]
+  have := C07_imod_partial pro x y nz (by omega) (by rw [hy']; exact hy)
+  rw [hx', hy'] at this
+  exact this
+
+/-- Negation witness for unequal operand widths (the shape of `a % -3`):
+`x = 5` (4 bits), `y = -2` (3 bits): `|x| mod |y| = 1` but `NewIDivider`
+answers 5, because the divisor is read as 6. -/
+theorem C07_imod_unequal_wrong :
+    toNat (evalBuilder (fun a b => do let d ← iDivider false a b 0 4; pure d.2) true (ofNat 4 5) (ofNat 3 6)) = 5 ∧
+    (toInt (ofNat 4 5)).natAbs % (toInt (ofNat 3 6)).natAbs = 1 := by
+  decide +kernel
+
+-- -7 / 2 = -3 (13 as uint4), |-7| mod 2 = 1 on 4-bit operands
+example : toNat (evalBuilder (fun a b => do let d ← iDivider false a b 4 0; pure d.1) true
+    (ofNat 4 9) (ofNat 4 2)) = 13 := by decide +kernel
+example : toNat (evalBuilder (fun a b => do let d ← iDivider false a b 0 4; pure d.2) true
+    (ofNat 4 9) (ofNat 4 2)) = 1 := by decide +kernel
+-- equal operand widths and a wider quotient: int3 -4 / int3 3 = -1 at 6 bits (63)
+example : toNat (evalBuilder (fun a b => do let d ← iDivider false a b 6 0; pure d.1) true
+    (ofNat 3 4) (ofNat 3 3)) = 63 := by decide +kernel
+
+/-- CONDITIONAL RESULT ABOUT THE PROPOSED REPAIR, NOT ABOUT THE CODE.
+`iDividerSignPad` is `NewIDivider` (Yao target) with `cc.SignPad` in place of
+`cc.ZeroPad` (hooks/c07-idivider-signpad.patch; judged not safe for /repo as
+long as constants carry no sign, see `C07_intCmp_signpad`).  For this variant:
+ALL operand widths, EVERY quotient width, non-zero divisor: the quotient
+truncates toward zero (`Int.tdiv`), reduced modulo `2^nz`. -/
+theorem C07_idiv_signpad (pro : Bool) (x y : List Bool) (nz : Nat) (hx : 0 < x.length) (hyl : 0 < y.length)
+    (hy : toInt y ≠ 0) :
+    (evalBuilder (fun a b => do let d ← iDividerSignPad a b nz 0; pure d.1) pro x y).length = nz ∧
+    (toNat (evalBuilder (fun a b => do let d ← iDividerSignPad a b nz 0; pure d.1) pro x y) : Int) =
+      (Int.tdiv (toInt x) (toInt y)) % ((2 ^ nz : Nat) : Int) := by
+  have hxne : x ≠ [] := by intro h; rw [h] at hx; simp at hx
+  have hyne : y ≠ [] := by intro h; rw [h] at hyl; simp at hyl
+  have hsx : sextTo x (max x.length y.length) ≠ [] := by
+    intro h; have := congrArg List.length h; simp only [sextTo_length, List.length_nil] at this; omega
+  have hsy : sextTo y (max x.length y.length) ≠ [] := by
+    intro h; have := congrArg List.length h; simp only [sextTo_length, List.length_nil] at this; omega
   refine evalBuilder_spec (R := fun z => z.length = nz ∧
-    toNat z = ((toInt x).natAbs % (toInt y).natAbs) % 2 ^ nz) ?_ pro (by omega)
-  intro s inp xw yw hwf hx hy' hxv hyv
+    (toNat z : Int) = (Int.tdiv (toInt x) (toInt y)) % ((2 ^ nz : Nat) : Int)) ?_ pro (by omega)
+  intro s inp xw yw hwf hxb hyb hxv hyv
   have hlx : xw.length = x.length := by rw [← hxv]; simp
   have hly : yw.length = y.length := by rw [← hyv]; simp
-  have hmx : max xw.length yw.length = x.length := by omega
-  have hpx : padTo (busVal s inp xw) (max xw.length yw.length) = x := by rw [hxv, hmx]; simp [padTo]
-  have hpy : padTo (busVal s inp yw) (max xw.length yw.length) = y := by rw [hyv, hmx]; simp [padTo, hl]
-  have hB : 0 < absN (padTo (busVal s inp yw) (max xw.length yw.length)) := by
-    rw [hpy, ← (toInt_sign_abs y hyne).2]; exact Int.natAbs_pos.mpr hy
-  refine (iDivider_spec hwf false 0 nz hx hy' (by omega) (by omega) hB).map ?_
-  intro t s' _ ⟨_, h2, _, h2l, _, hr⟩
-  rw [hpx, hpy] at hr
-  have hmin : min nz (max xw.length yw.length) = nz := by omega
-  rw [hmin] at h2l
-  exact ⟨h2, by simpa using h2l, by rw [hr, (toInt_sign_abs x hxne).2, (toInt_sign_abs y hyne).2]⟩
+  have hB : 0 < absN (sextTo (busVal s inp yw) (max xw.length yw.length)) := by
+    rw [hyv, hlx, hly, ← (toInt_sign_abs _ hsy).2, toInt_sextTo y _ hyne]; exact Int.natAbs_pos.mpr hy
+  refine (iDividerSignPad_spec hwf nz 0 hxb hyb (by omega) (by omega) hB).map ?_
+  intro t s' _ ⟨h1, _, h1l, _, hq, _⟩
+  rw [hxv, hyv, hlx, hly] at hq
+  refine ⟨h1, by simpa using h1l, ?_⟩
+  rw [hq, signed_quotient _ _ hsx hsy nz, toInt_sextTo x _ hxne, toInt_sextTo y _ hyne]
 
--- -42 / 4 = -10 (246 as uint8), |-42| mod 4 = 2 on 8-bit operands
-example : toNat (evalBuilder (fun a b => do let d ← iDivider false a b 8 0; pure d.1) true
-    (ofNat 8 214) (ofNat 8 4)) = 246 := by decide +kernel
-example : toNat (evalBuilder (fun a b => do let d ← iDivider false a b 0 8; pure d.2) true
-    (ofNat 8 214) (ofNat 8 4)) = 2 := by decide +kernel
+/-- CONDITIONAL RESULT ABOUT THE PROPOSED REPAIR, NOT ABOUT THE CODE: remainder
+of `iDividerSignPad`, all operand widths, every result width:
+`(|x| mod |y|) mod 2^nz`. -/
+theorem C07_imod_signpad (pro : Bool) (x y : List Bool) (nz : Nat) (hx : 0 < x.length) (hyl : 0 < y.length)
+    (hy : toInt y ≠ 0) :
+    (evalBuilder (fun a b => do let d ← iDividerSignPad a b 0 nz; pure d.2) pro x y).length = nz ∧
+    toNat (evalBuilder (fun a b => do let d ← iDividerSignPad a b 0 nz; pure d.2) pro x y) =
+      ((toInt x).natAbs % (toInt y).natAbs) % 2 ^ nz := by
+  have hxne : x ≠ [] := by intro h; rw [h] at hx; simp at hx
+  have hyne : y ≠ [] := by intro h; rw [h] at hyl; simp at hyl
+  have hsx : sextTo x (max x.length y.length) ≠ [] := by
+    intro h; have := congrArg List.length h; simp only [sextTo_length, List.length_nil] at this; omega
+  have hsy : sextTo y (max x.length y.length) ≠ [] := by
+    intro h; have := congrArg List.length h; simp only [sextTo_length, List.length_nil] at this; omega
+  refine evalBuilder_spec (R := fun z => z.length = nz ∧
+    toNat z = ((toInt x).natAbs % (toInt y).natAbs) % 2 ^ nz) ?_ pro (by omega)
+  intro s inp xw yw hwf hxb hyb hxv hyv
+  have hlx : xw.length = x.length := by rw [← hxv]; simp
+  have hly : yw.length = y.length := by rw [← hyv]; simp
+  have hB : 0 < absN (sextTo (busVal s inp yw) (max xw.length yw.length)) := by
+    rw [hyv, hlx, hly, ← (toInt_sign_abs _ hsy).2, toInt_sextTo y _ hyne]; exact Int.natAbs_pos.mpr hy
+  refine (iDividerSignPad_spec hwf 0 nz hxb hyb (by omega) (by omega) hB).map ?_
+  intro t s' _ ⟨_, h2, _, h2l, _, hr⟩
+  rw [hxv, hyv, hlx, hly] at hr
+  refine ⟨h2, by simpa using h2l, ?_⟩
+  rw [hr, ← (toInt_sign_abs _ hsx).2, ← (toInt_sign_abs _ hsy).2, toInt_sextTo x _ hxne, toInt_sextTo y _ hyne]
+
+-- the proposed repair on the witnesses of `C07_idiv_unequal_wrong` / `C07_imod_unequal_wrong`
+example : toNat (evalBuilder (fun a b => do let d ← iDividerSignPad a b 4 0; pure d.1) true
+    (ofNat 4 5) (ofNat 3 6)) = 14 := by decide +kernel
+example : toNat (evalBuilder (fun a b => do let d ← iDividerSignPad a b 0 4; pure d.2) true
+    (ofNat 4 5) (ofNat 3 6)) = 1 := by decide +kernel
+-- unequal widths and a wider quotient: int4 -4 / int3 3 = -1 at 6 bits (63)
+example : toNat (evalBuilder (fun a b => do let d ← iDividerSignPad a b 6 0; pure d.1) true
+    (ofNat 4 12) (ofNat 3 3)) = 63 := by decide +kernel
+
+/-! ## Goldschmidt divider (GMW target of NewUDivider / NewIDivider): the correction step
+
+`NewUDividerGoldschmidtFast` = zero pad, quotient ESTIMATE (MSB normalisation,
+reciprocal seed from a ROM, `iterationsForWidthWithSeed` Goldschmidt
+iterations on fixed-point products), CORRECTION (`goldCorrection`:
+`r = a - q·b`, `q ± 1`, `r ± b`, selection by two sign bits).  The whole
+generator `goldschmidt` is tied gate for gate to the Go code (T4).  Proved
+here: the correction step is exact for every width IF the estimate is within
+±1 of the true quotient.  That bound on the estimate is NOT proved; it is the
+explicitly named VALIDATED HYPOTHESIS `goldschmidt-estimate-within-one` of the
+check (exhaustive evaluation of the real builder for all operand pairs up to a
+width bound on every run, structured operand pairs above; checks/C07.py). -/
+
+/-- Correction step of `NewUDividerGoldschmidtFast` as of 776d360, for EVERY
+operand width `n ≥ 1`, all result widths, every non-zero divisor: if the
+estimate `q` satisfies `|q - ⌊a / b⌋| ≤ 1` (hypothesis `hest`) then the outputs
+are exactly `(a / b) mod 2^nq` and `(a mod b) mod 2^nr`. -/
+theorem C07_goldschmidt_correction (pro : Bool) (a b q : List Bool) (nq nr : Nat)
+    (hlb : b.length = a.length) (hlq : q.length = a.length) (hn : 0 < a.length) (hb : toNat b ≠ 0)
+    (hest : toNat q ≤ toNat a / toNat b + 1 ∧ toNat a / toNat b ≤ toNat q + 1) :
+    ((evalBuilder3 (fun x y z => do let d ← goldCorrection x y z nq nr; pure d.1) pro a b q).length = nq ∧
+      toNat (evalBuilder3 (fun x y z => do let d ← goldCorrection x y z nq nr; pure d.1) pro a b q) =
+        (toNat a / toNat b) % 2 ^ nq) ∧
+    ((evalBuilder3 (fun x y z => do let d ← goldCorrection x y z nq nr; pure d.2) pro a b q).length = nr ∧
+      toNat (evalBuilder3 (fun x y z => do let d ← goldCorrection x y z nq nr; pure d.2) pro a b q) =
+        (toNat a % toNat b) % 2 ^ nr) := by
+  constructor
+  · refine evalBuilder3_spec (R := fun z => z.length = nq ∧ toNat z = (toNat a / toNat b) % 2 ^ nq) ?_ pro
+      (by omega)
+    intro s inp xw yw zw hwf hx hy hz hxv hyv hzv
+    have hlx : xw.length = a.length := by rw [← hxv]; simp
+    have hly : yw.length = b.length := by rw [← hyv]; simp
+    have hlz : zw.length = q.length := by rw [← hzv]; simp
+    refine (goldCorrection_spec hwf nq nr hx hy hz (by omega) (by omega) (by omega) (by rw [hyv]; omega)
+      (by rw [hxv, hyv, hzv]; exact hest)).map ?_
+    intro t s' _ ⟨h1, _, h1l, _, hqv, _⟩
+    exact ⟨h1, by simpa using h1l, by rw [hqv, hxv, hyv]⟩
+  · refine evalBuilder3_spec (R := fun z => z.length = nr ∧ toNat z = (toNat a % toNat b) % 2 ^ nr) ?_ pro
+      (by omega)
+    intro s inp xw yw zw hwf hx hy hz hxv hyv hzv
+    have hlx : xw.length = a.length := by rw [← hxv]; simp
+    have hly : yw.length = b.length := by rw [← hyv]; simp
+    have hlz : zw.length = q.length := by rw [← hzv]; simp
+    refine (goldCorrection_spec hwf nq nr hx hy hz (by omega) (by omega) (by omega) (by rw [hyv]; omega)
+      (by rw [hxv, hyv, hzv]; exact hest)).map ?_
+    intro t s' _ ⟨_, h2, _, h2l, _, hrv⟩
+    exact ⟨h2, by simpa using h2l, by rw [hrv, hxv, hyv]⟩
+
+-- non-vacuity: 7 / 3 at width 3 with the estimate 3 (one too big): 2 rem 1
+example : toNat (evalBuilder3 (fun x y z => do let d ← goldCorrection x y z 3 3; pure d.1) true
+    (ofNat 3 7) (ofNat 3 3) (ofNat 3 3)) = 2 := by decide +kernel
+example : toNat (evalBuilder3 (fun x y z => do let d ← goldCorrection x y z 3 3; pure d.2) true
+    (ofNat 3 7) (ofNat 3 3) (ofNat 3 3)) = 1 := by decide +kernel
+
+/-- Old-definition negation witness (`goldCorrectionOld` in Model/Builders.lean is
+the correction step as it was before 776d360: `q·b` truncated to `n` bits, `r`
+on `n+1` bits, sign read from `r[n]`): `7 / 3` at width 3 with the estimate `3`
+— which satisfies the hypothesis of `C07_goldschmidt_correction`, `⌊7/3⌋ = 2` —
+gave `4 rem 3`: `3·3 = 9 = 1 (mod 2^3)`, so `r = 6` looked non-negative and
+`≥ b`.  (The kernel evaluates the 367 gates of width 3; the same defect at
+width 7, `127 / 13` with the estimate 10 giving `11 rem 112`, has 1710 gates
+and is evaluated by the compiled driver on every run, fact
+`goldschmidt_old_witness_127_13` of checks/C07.py.) -/
+theorem C07_goldschmidt_correction_old_wrong :
+    toNat (evalBuilder3 (fun x y z => do let d ← goldCorrectionOld x y z 3 3; pure d.1) true
+      (ofNat 3 7) (ofNat 3 3) (ofNat 3 3)) = 4 ∧
+    toNat (evalBuilder3 (fun x y z => do let d ← goldCorrectionOld x y z 3 3; pure d.2) true
+      (ofNat 3 7) (ofNat 3 3) (ofNat 3 3)) = 3 ∧
+    (3 ≤ 7 / 3 + 1 ∧ 7 / 3 ≤ 3 + 1) ∧ 7 / 3 = 2 ∧ 7 % 3 = 1 := by
+  decide +kernel
 
 /-! ## What is NOT proved in this file
 
-* `NewUDividerGoldschmidtFast` (GMW target of `NewUDivider` / `NewIDivider`): no
-  Lean generator; it is not exact (known finding C07-goldschmidt-inexact),
-  validated by the oracle and the Lean evaluator on compiled circuits only.
+* The quotient ESTIMATE of `NewUDividerGoldschmidtFast` (`goldEstimate`: MSB
+  normalisation, seed ROM, Goldschmidt iterations): Lean generator tied gate for
+  gate (T4), bound `|estimate - ⌊a/b⌋| ≤ 1` only VALIDATED (hypothesis
+  `goldschmidt-estimate-within-one`, see the file header); therefore no
+  unconditional theorem for `NewUDivider` / `NewIDivider` on the GMW target.
+* Signed comparators and signed divider on unequal operand widths: the full
+  statement is FALSE on the code (zero extension; witnesses above, open known
+  findings C07-int-comparator-zero-extends, C07-signed-div-zero-extends,
+  C07-signed-goldschmidt-zero-extends).
 * `NewUDividerRestoring`, `NewUDividerArray` (not dispatched by the compiler):
   oracle only.
-* Quotient / remainder buses wider than the operands of the long divider
-  (left unconnected by the Go code) and the signed builders on unequal operand
-  widths (zero extension, known findings).
 * `Compiler.Compile` (wire numbering, BFS order, GMW level sort) and the
   optimisation passes: validated by evaluation.
 -/
